@@ -4,6 +4,7 @@ import MC.Model.Preproc
 import MC.Model.Prefs
 import MC.Model.Nav
 import MC.Spec.Tts
+import MC.Model.Intent
 open Lean
 
 namespace MC.Driver
@@ -139,7 +140,39 @@ def handleTts (op : String) (_req : Json) : Option Json :=
       Json.arr #[toJson e, toJson c, toJson (ofCps s), toJson (ofCps t)]).toArray
   | _ => none
 
-def handlers : List (String → Json → Option Json) := [handleVariant, handlePreproc, handlePrefs, handleNav, handleTts]
+/-- C19 ops -/
+partial def itreeJ : MC.Intent.ITree → Json
+  | .leaf isNum text props => Json.mkObj [("k", "leaf"), ("num", toJson isNum), ("t", toJson (ofCps text)), ("p", toJson (ofCps props))]
+  | .ref n v props => Json.mkObj [("k", "ref"), ("name", toJson (ofCps n)), ("p", toJson (ofCps props)),
+      ("v", match v with | .leaf t => toJson (ofCps t) | .empty => toJson "<empty>" | .other => toJson "<other>")]
+  | .self props => Json.mkObj [("k", "self"), ("p", toJson (ofCps props))]
+  | .elem n props kids => Json.mkObj [("k", "elem"), ("n", toJson (ofCps n)), ("p", toJson (ofCps props)), ("c", Json.arr (kids.map itreeJ).toArray)]
+  | .refHead n props kids => Json.mkObj [("k", "refhead"), ("name", toJson (ofCps n)), ("p", toJson (ofCps props)), ("c", Json.arr (kids.map itreeJ).toArray)]
+  | .apply h kids => Json.mkObj [("k", "apply"), ("h", itreeJ h), ("c", Json.arr (kids.map itreeJ).toArray)]
+
+def handleIntent (op : String) (req : Json) : Option Json :=
+  match op with
+  | "intent_parse" =>
+    let args := arrOf req "args"     -- [[name, kind, text]] kind: leaf|empty|other|error
+    let look (n : MC.Intent.Str) : Except MC.Intent.Err (Option MC.Intent.RefVal) :=
+      match args.toList.find? (fun a => cps (((a.getArr?.toOption.getD #[])[0]?.getD Json.null).getStr?.toOption.getD "") == n) with
+      | none => .ok none
+      | some a =>
+        let arr := a.getArr?.toOption.getD #[]
+        let kind := ((arr[1]?.getD Json.null).getStr?).toOption.getD ""
+        let text := ((arr[2]?.getD Json.null).getStr?).toOption.getD ""
+        if kind == "leaf" then .ok (some (.leaf (cps text))) else if kind == "empty" then .ok (some .empty)
+        else if kind == "error" then .error .rules else .ok (some .other)
+    let E : MC.Intent.Env := { arg := look, selfOk := true }
+    some <| match MC.Intent.parseIntent E (cps (getStr req "intent")) with
+      | .ok t => okJ (itreeJ t)
+      | .error (.syntax w) => errJ "syntax" w
+      | .error (.argNotFound n) => errJ "arg-not-found" (ofCps n)
+      | .error .rules => errJ "rules" ""
+      | .error .fuel => errJ "fuel" ""
+  | _ => none
+
+def handlers : List (String → Json → Option Json) := [handleVariant, handlePreproc, handlePrefs, handleNav, handleTts, handleIntent]
 
 def handle (req : Json) : Json :=
   let op := getStr req "op"
